@@ -368,6 +368,8 @@ def build(tier):
                 goals=["table-step", "glue"], timeout_ms=60000,
                 doc="CRC-16/MODBUS: parameters, inductive table step (bit-vectors), hexdigest glue"),
     ]
+    from . import c09_hex
+    hs.extend(c09_hex.harnesses(tier))
     return {
         "harnesses": hs,
         "level_text": "symbolic execution of make_update/prepare_fw/respond_fw_config/respond_fw "
